@@ -94,6 +94,8 @@ type Frame struct {
 	siteN    map[string]int
 	ranks    map[string]map[token.Pos]int
 	curCallClass string
+	siteInvs     []*Clause // call-site invariants of the call being encoded (see Contract.CallInvariants)
+	siteKey      string
 	// loop analysis
 	order    []*ssa.BasicBlock
 	backEdge map[[2]int]bool
@@ -114,6 +116,9 @@ type loopInfo struct {
 	body    map[int]bool
 	ordinal int
 	pos     token.Pos
+	// loop frame support: state at the header of an arbitrary iteration and the heap keys the body writes
+	headerState *State
+	written     map[string]bool
 }
 
 type Enc struct {
@@ -145,7 +150,10 @@ type Enc struct {
 	dynImpl         map[string]bool
 	qbound          []string // names of the quantifier variables whose body is being evaluated
 	dryCache        []dryCached
+	applyCells      map[string]*Val // captured-variable cells while a closure's contract is applied at a call site
 	recGhost        map[string]bool
+	trustedClauses  []string // "trusted ensures" clauses of the function under verification (not checked)
+	closedFacts     map[string]bool // universally closed side facts already emitted (bound names normalised)
 	axiomLines      []axiomLine
 	bseqSeen        map[string]bool
 	writeRef        string          // reference through which the heap write in progress goes ("" = unknown)
@@ -190,8 +198,15 @@ func (e *Enc) boundIn(t string) []string {
 }
 
 // assertTyping: side facts (typing of loaded values). Produced while a quantifier body is being evaluated they may mention
-// the bound variable; such a fact cannot be asserted at top level and is dropped (typing facts only ever help a proof).
+// the bound variable; the quantifier evaluation (eval.go, EQuant) closes such facts universally over its binders, so
+// they are emitted like any other fact.
 func (e *Enc) assertTyping(t string) {
+	e.assert(t)
+}
+
+// assertRange: integer-range typing facts. Under a quantifier they are dropped (they only ever help a proof, are rarely
+// needed there, and one copy per bound variable and leaf swamps the solvers).
+func (e *Enc) assertRange(t string) {
 	for _, q := range e.qbound {
 		if strings.Contains(t, q) {
 			return
@@ -395,13 +410,21 @@ func (e *Enc) loadLoc(st *State, l *Loc) *Val {
 		v.L = append(v.L, Sc{t, lf.Sort})
 		e.typeAssume(st, lf, t)
 		// values already in the entry heap are references that existed at entry
-		if lf.Sort == "Int" && lf.Path == "" && isRefLike(lf.T) {
+		if lf.Sort == "Int" && isRefLike(lf.T) {
 			a0 := e.declConst(sym(key+"@0"), sort)
+			// (only for containers that existed at entry: the fields of an object a callee allocates are described by
+			// the callee's ensures over the same, unhavocked, array)
 			if l.Kind == 'S' {
-				e.assertTyping("(<= (select (select " + a0 + " " + l.Ref + ") " + l.Idx + ") alloc@0)")
+				e.assertTyping("(=> (<= " + l.Ref + " alloc@0) (<= (select (select " + a0 + " " + l.Ref + ") " + l.Idx + ") alloc@0))")
 			} else {
-				e.assertTyping("(<= (select " + a0 + " " + l.Ref + ") alloc@0)")
+				e.assertTyping("(=> (<= " + l.Ref + " alloc@0) (<= (select " + a0 + " " + l.Ref + ") alloc@0))")
 			}
+		}
+	}
+	// slice headers read from memory are well-formed: len <= cap
+	for i := 0; i+1 < len(leaves); i++ {
+		if _, ok := leaves[i].T.Underlying().(*types.Slice); ok && strings.HasSuffix(leaves[i].Path, ".len") && strings.HasSuffix(leaves[i+1].Path, ".cap") {
+			e.assertRange("(<= " + v.L[i].T + " " + v.L[i+1].T + ")")
 		}
 	}
 	// slice values held in memory are well-formed slices (type invariant of every Go slice value): 0 <= off, 0 <= len <= cap
@@ -428,19 +451,28 @@ func (e *Enc) typeAssume(st *State, lf Leaf, t string) {
 	switch u := lf.T.Underlying().(type) {
 	case *types.Basic:
 		if lo, hi, ok := intRange(u); ok {
-			e.assertTyping("(and (<= " + smtInt(lo) + " " + t + ") (<= " + t + " " + smtInt(hi) + "))")
+			e.assertRange("(and (<= " + smtInt(lo) + " " + t + ") (<= " + t + " " + smtInt(hi) + "))")
 		}
 	case *types.Pointer, *types.Map:
-		if lf.Path == "" {
-			e.assertTyping("(<= " + t + " " + st.alloc + ")")
-		}
+		e.assertTyping("(<= " + t + " " + st.alloc + ")")
 	case *types.Slice:
 		switch {
 		case strings.HasSuffix(lf.Path, ".base"):
 			e.assertTyping("(<= " + t + " " + st.alloc + ")")
 		case strings.HasSuffix(lf.Path, ".len"), strings.HasSuffix(lf.Path, ".cap"), strings.HasSuffix(lf.Path, ".off"):
-			// lengths, capacities and offsets are Go ints
-			e.assertTyping("(and (<= 0 " + t + ") (<= " + t + " 9223372036854775807))")
+			// lengths, capacities and offsets of slice values are non-negative ints
+			e.assertRange("(and (<= 0 " + t + ") (<= " + t + " 9223372036854775807))")
+		}
+		// every slice value is well-formed wherever it is stored: 0 <= off, 0 <= len <= MaxInt64 (len() is an int)
+		if i := strings.LastIndex(lf.Path, "."); i >= 0 {
+			switch lf.Path[i:] {
+			case ".len":
+				e.assertTyping("(and (<= 0 " + t + ") (<= " + t + " 9223372036854775807))")
+			case ".off":
+				e.assertTyping("(<= 0 " + t + ")")
+			case ".cap":
+				e.assertTyping("(<= " + t + " 9223372036854775807)")
+			}
 		}
 	}
 }
@@ -499,6 +531,13 @@ func (e *Enc) refLoc(ref string, el types.Type) *Loc {
 			return &Loc{Kind: 'A', Key: typeStr(u.Elem()), Ref: ref, T: el}
 		}
 	}
+	// plain cells of named basic types share the heap of their underlying type, so that a pointer conversion such as
+	// (*hexutil.Uint64)(&x) with x uint64 denotes the same cell
+	if _, opq := e.TI.opaqueSort(el); !opq {
+		if b, ok := el.Underlying().(*types.Basic); ok {
+			return &Loc{Kind: 'P', Key: typeStr(b), Ref: ref, T: el}
+		}
+	}
 	return &Loc{Kind: 'P', Key: typeStr(el), Ref: ref, T: el}
 }
 
@@ -536,6 +575,12 @@ func (e *Enc) freshVal(st *State, hint string, t types.Type) *Val {
 			switch lf.Path[strings.LastIndex(lf.Path, "."):] {
 			case ".len", ".off":
 				e.assert("(<= 0 " + n + ")")
+				if strings.HasSuffix(lf.Path, ".len") {
+					// len() is an int
+					e.assert("(<= " + n + " 9223372036854775807)")
+				}
+			case ".cap":
+				e.assert("(<= " + n + " 9223372036854775807)")
 			}
 		}
 	}
@@ -933,6 +978,30 @@ func (e *Enc) mergeVals(hint string, vs []*Val, conds []string) *Val {
 	if (first.Loc != nil || first.Clos != nil) && allSame {
 		return first
 	}
+	// nil and interior pointers of one shape (same container type, field path; 'F' kind) on different paths: one interior
+	// pointer whose object reference depends on the path, 0 standing for nil
+	if lv := e.mergeNullableLocs(hint, vs, conds); lv != nil {
+		return lv
+	}
+	// different closures on different paths: keep the alternatives with their path conditions
+	allClos := true
+	for _, v := range vs {
+		if v.Clos == nil && len(v.Alts) == 0 {
+			allClos = false
+		}
+	}
+	if allClos {
+		out := &Val{T: first.T}
+		for i, v := range vs {
+			if v.Clos != nil {
+				out.Alts = append(out.Alts, ClosAlt{conds[i], v.Clos})
+			}
+			for _, a := range v.Alts {
+				out.Alts = append(out.Alts, ClosAlt{and(conds[i], a.Cond), a.Clos})
+			}
+		}
+		return out
+	}
 	out := &Val{T: first.T}
 	for i := range first.L {
 		same := true
@@ -956,6 +1025,44 @@ func (e *Enc) mergeVals(hint string, vs []*Val, conds []string) *Val {
 		out.L = append(out.L, Sc{e.define(hint, first.L[i].S, t), first.L[i].S})
 	}
 	return out
+}
+
+func (e *Enc) mergeNullableLocs(hint string, vs []*Val, conds []string) *Val {
+	var proto *Loc
+	for _, v := range vs {
+		switch {
+		case v.Loc != nil:
+			if v.Clos != nil || v.Loc.Kind != 'F' {
+				return nil
+			}
+			if proto == nil {
+				proto = v.Loc
+			} else if proto.Key != v.Loc.Key || proto.Path != v.Loc.Path || typeStr(proto.T) != typeStr(v.Loc.T) {
+				return nil
+			}
+		case v.Clos == nil && len(v.L) == 1 && v.L[0].T == "0":
+			// the nil pointer
+		default:
+			return nil
+		}
+	}
+	if proto == nil {
+		return nil
+	}
+	refOf := func(v *Val) string {
+		if v.Loc != nil {
+			return v.Loc.Ref
+		}
+		return "0"
+	}
+	t := refOf(vs[len(vs)-1])
+	for j := len(vs) - 2; j >= 0; j-- {
+		t = ite(conds[j], refOf(vs[j]), t)
+	}
+	nl := *proto
+	nl.Ref = e.define(hint+"!iptr", "Int", t)
+	nl.Nullable = true
+	return &Val{T: vs[0].T, Loc: &nl}
 }
 
 // edgeCond returns the condition for taking edge from block b (already encoded, end state st) to succ index si.
